@@ -66,7 +66,8 @@ class Ellipse(Shape2D):
     @centroid.setter
     def centroid(self, value):
         """:math:`(3, )` :class:`numpy.ndarray` of float: Get or set the centroid of the shape."""  # noqa: E501
-        self._centroid = np.asarray(value)
+        # Copy, so that the shape does not share memory with the caller's array.
+        self._centroid = np.array(value)
 
     @property
     def a(self):
